@@ -188,4 +188,98 @@ theorem patFindOK_unique (cmR : Nat → Nat → Bool) (ps : List (Nat × Re)) (w
       simp only [Option.some.injEq] at g2
       rw [g2, hl]
 
+
+theorem firstIdx_of_cand (cm : Nat → Nat → Bool) (ps : List (Nat × Re)) (hn : (ps.map (·.1)).Nodup)
+    (w : List Nat) (c : Nat × Nat) (hc : c ∈ patCands cm ps w) :
+    firstIdxOfType ps ((ps[c.1]?.map (·.1)).getD 0) = c.1 := by
+  obtain ⟨k, len⟩ := c
+  obtain ⟨u, v, _, _, _, q, hq, _⟩ := (mem_patCands cm ps w k len).mp hc
+  simp only [hq, Option.map_some, Option.getD_some]
+  exact idx_of_pattern hn hq
+
+/-- With pairwise distinct token types the classification rule for finding F2 is the property's
+    rule: it can reclassify nothing when token types are unique. -/
+theorem sharedTypeRule_eq_patFindOK (cm : Nat → Nat → Bool) (ps : List (Nat × Re))
+    (hn : (ps.map (·.1)).Nodup) (w : List Nat) (r : Option (Nat × Nat)) :
+    sharedTypeRule cm ps w r = patFindOK cm ps w r := by
+  cases r with
+  | none => rfl
+  | some tl =>
+    obtain ⟨t, len⟩ := tl
+    have key : ∀ c ∈ patCands cm ps w, (ps[c.1]?.map (·.1)) = some t → firstIdxOfType ps t = c.1 := by
+      intro c hc h
+      have := firstIdx_of_cand cm ps hn w c hc
+      rw [h] at this
+      simpa using this
+    unfold sharedTypeRule patFindOK
+    rw [Bool.eq_iff_iff]
+    simp only [List.any_eq_true, List.all_eq_true, Bool.and_eq_true, Bool.or_eq_true,
+      decide_eq_true_eq, beq_iff_eq]
+    constructor
+    · rintro ⟨c, hc, ⟨h1, h2⟩, h3⟩
+      refine ⟨c, hc, ⟨h1, h2⟩, fun c' hc' => ?_⟩
+      rcases h3 c' hc' with h | ⟨h4, h5⟩
+      · exact Or.inl h
+      · refine Or.inr ⟨h4, ?_⟩
+        rw [key c hc h2, firstIdx_of_cand cm ps hn w c' hc'] at h5
+        exact h5
+    · rintro ⟨c, hc, ⟨h1, h2⟩, h3⟩
+      refine ⟨c, hc, ⟨h1, h2⟩, fun c' hc' => ?_⟩
+      rcases h3 c' hc' with h | ⟨h4, h5⟩
+      · exact Or.inl h
+      · refine Or.inr ⟨h4, ?_⟩
+        rw [key c hc h2, firstIdx_of_cand cm ps hn w c' hc']
+        exact h5
+
+
+/-- **What the crate does when token types are shared (finding F2), for all inputs**: the model of
+    `find_from` on a lookahead-free mode that is language-equivalent to the pattern list — with *no*
+    assumption on the token types — reports the longest match, and among the longest matches the
+    token type whose first occurrence in the pattern list comes first. -/
+theorem findFrom_sharedTypeRule (M : ModeDfa) (cm cmR : Nat → Nat → Bool) (ps : List (Nat × Re))
+    (hlas : M.las = []) (hprio : M.dfa.prio = ps.map (·.1))
+    (heq : LangEquiv M.dfa cm cmR ps) (w : List Nat) :
+    sharedTypeRule cmR ps w (findFrom M cm 0 w) = true := by
+  have hspec := findFrom_specFindOK M cm 0 w
+  have toSpec : ∀ k len, (k, len) ∈ patCands cmR ps w → ∃ q, ps[k]? = some q ∧
+      (⟨len, len, q.1⟩ : Cand) ∈ specCands M cm 0 w := by
+    intro k len hk
+    obtain ⟨u, v, h1, h2, rfl, q, hq, hm⟩ := (mem_patCands cmR ps w k _).mp hk
+    refine ⟨q, hq, (mem_specCands_nolas M cm hlas w _).mpr ⟨u, v, h1, h2, ?_, rfl, rfl⟩⟩
+    exact (heq u h1 q.1).mpr ⟨q.2, List.mem_of_getElem? hq, hm⟩
+  cases hr : findFrom M cm 0 w with
+  | none =>
+    rw [hr] at hspec
+    simp only [specFindOK, List.isEmpty_iff] at hspec
+    simp only [sharedTypeRule, List.isEmpty_iff]
+    cases hc : patCands cmR ps w with
+    | nil => rfl
+    | cons c r =>
+      obtain ⟨q, _, hmem⟩ := toSpec c.1 c.2 (by rw [hc]; simp)
+      rw [hspec] at hmem; cases hmem
+  | some r =>
+    obtain ⟨t, e⟩ := r
+    rw [hr] at hspec
+    simp only [specFindOK, List.any_eq_true, Bool.and_eq_true, beq_iff_eq, List.all_eq_true] at hspec
+    obtain ⟨k0, hk0, ⟨ht, he⟩, hbest⟩ := hspec
+    obtain ⟨u, v, h1, h2, hacc, h3, h4⟩ := (mem_specCands_nolas M cm hlas w k0).mp hk0
+    obtain ⟨re, hre, hm⟩ := (heq u h1 k0.tid).mp hacc
+    obtain ⟨i, hi, hget⟩ := List.getElem_of_mem hre
+    have hpat : ps[i]? = some (k0.tid, re) := by rw [List.getElem?_eq_getElem hi, hget]
+    simp only [sharedTypeRule, List.any_eq_true, Bool.and_eq_true, beq_iff_eq, List.all_eq_true,
+      Bool.or_eq_true, decide_eq_true_eq]
+    refine ⟨(i, e), ?_, ⟨⟨rfl, ?_⟩, ?_⟩⟩
+    · apply (mem_patCands cmR ps w _ _).mpr
+      exact ⟨u, v, h1, h2, by omega, (k0.tid, re), hpat, hm⟩
+    · simp only; rw [hpat]; simp [ht]
+    · intro c' hc'
+      obtain ⟨q', hq', hmem'⟩ := toSpec c'.1 c'.2 hc'
+      have := hbest _ hmem'
+      simp only [candGe, Bool.or_eq_true, Bool.and_eq_true, decide_eq_true_eq, beq_iff_eq] at this
+      simp only [Dfa.prioOf, hprio] at this
+      simp only [hq', Option.map_some, Option.getD_some, firstIdxOfType]
+      rcases this with h | ⟨h5, h6⟩
+      · left; omega
+      · right; exact ⟨by omega, by rw [← ht]; exact h6⟩
+
 end Scnr
